@@ -457,6 +457,7 @@ func (f *STFS) OpenFile(name string, flag int, perm os.FileMode) (afero.File, er
 		}
 	}
 
+	created := false
 	hdr, err := inventory.Stat(
 		f.metadata,
 
@@ -477,7 +478,7 @@ func (f *STFS) OpenFile(name string, flag int, perm os.FileMode) (afero.File, er
 			)
 
 			createFile := func() error {
-				if !f.readOnly && flag&os.O_CREATE != 0 && flag&os.O_EXCL == 0 {
+				if !f.readOnly && flag&os.O_CREATE != 0 {
 					if parent, err := inventory.Stat(
 						f.metadata,
 
@@ -511,6 +512,8 @@ func (f *STFS) OpenFile(name string, flag int, perm os.FileMode) (afero.File, er
 					if err := f.mknodeWithoutLocking(false, name, perm, false, "", false); err != nil {
 						return err
 					}
+
+					created = true
 
 					hdr, err = inventory.Stat(
 						f.metadata,
@@ -580,6 +583,11 @@ func (f *STFS) OpenFile(name string, flag int, perm os.FileMode) (afero.File, er
 		} else {
 			return nil, err
 		}
+	}
+
+	// O_EXCL: the file has to be created by this call
+	if !f.readOnly && !created && flag&os.O_CREATE != 0 && flag&os.O_EXCL != 0 {
+		return nil, os.ErrExist
 	}
 
 	// Prevent opening a directory as writable
